@@ -43,6 +43,10 @@ def run(ctx) -> None:
         ctx.reuse("C16.step-twins", c07.reject, dev)
         ctx.reuse("C16.step-twins", c06.wiring, dev)
         ctx.reuse("C16.step-twins", c06.iteration_space, dev)
+    # both copies decide "same labware" the same way: by identity (a value-based __eq__ would split `==` from `is`)
+    from .common import identity_eq_rule
+
+    ctx.reuse("C16.history-twins", identity_eq_rule, "C11.same-labware")
     # distribute (one shared implementation) books amounts that do not depend on the device's well numbering
     ctx.reuse("C16.state-twins", c01.pair_distribute, "C01.pair-distribute")
     from . import c04
